@@ -11,7 +11,7 @@
   Theorems marked (fix) hold for `Variant.fitKeep` = the code with fixes/C05-sample-fit.diff; for the pinned code
   (`Variant.orig`) `orig_keeps_row_with_factor_below_one` is a `decide` witness of the violation.
 -/
-import SH.Lemmas.Sampler
+import SH.Lemmas.SamplerTree
 import Mathlib.Tactic.Linarith
 
 namespace SH.Sampler
@@ -262,129 +262,8 @@ theorem no_sample_level (cfg : Cfg) (ha : cfg.agent = true) (hdis : cfg.disableN
     simp only [handle, hflag, if_true, keepAll, evs_map_ev, List.mem_map]
     exact ⟨it, by rw [assign_items]; exact hit, rfl⟩
 
-theorem runs_key_const (key : Item → Int) (l : List Item) : ∀ r ∈ runs key l, ∀ x ∈ r, key x = key (hd r) := by
-  induction l with
-  | nil => simp [runs]
-  | cons a xs ih =>
-    simp only [runs]
-    split
-    · rename_i y ys rest heq
-      rw [heq] at ih
-      split
-      · rename_i hk
-        intro r hr x hx
-        rcases List.mem_cons.1 hr with rfl | hr
-        · rcases List.mem_cons.1 hx with rfl | hx
-          · rfl
-          · have := ih (y :: ys) (by simp) x hx
-            simp only [hd, List.headD_cons] at this ⊢
-            rw [this, hk]
-        · exact ih r (by simp [hr]) x hx
-      · intro r hr x hx
-        rcases List.mem_cons.1 hr with rfl | hr
-        · simp at hx; subst hx; rfl
-        · exact ih r hr x hx
-    · rename_i rest heq
-      rw [heq] at ih
-      intro r hr x hx
-      rcases List.mem_cons.1 hr with rfl | hr
-      · simp at hx; subst hx; rfl
-      · exact ih r (by simp [hr]) x hx
-    · intro r hr x hx
-      simp at hr; subst hr
-      simp at hx; subst hx; rfl
-
 /-- rows of one metric agree on the NoSampleAgent flag (it is a property of the metric) -/
 def FlagConsistent (l : List Item) : Prop := ∀ a ∈ l, ∀ b ∈ l, a.metric = b.metric → a.noSample = b.noSample
-
-/-- a partition either carries the flag of all its rows (metric level and below) or sits above the metric level,
-    never carries the flag and is entered by the sampling loop -/
-def FlagOrAbove (cfg : Cfg) (p : Group) : Prop :=
-  (∀ x ∈ p.items, x.metric = (hd p.items).metric) ∧ p.noSample = (hd p.items).noSample ∨
-  (p.noSample = false ∧ p.depth < nPart cfg)
-
-theorem kindAt_ns_grp_depth (cfg : Cfg) (d : Nat) (h : kindAt cfg d = .byNs ∨ kindAt cfg d = .byGroup) : d + 1 < nPart cfg := by
-  rcases cfg with ⟨_, _, _, _, _, sb, sn, sg, _, _, _, _⟩
-  rcases d with _ | _ | _ | _ | d <;> cases sb <;> cases sn <;> cases sg <;>
-    simp [kindAt, nPart, partList] at h ⊢
-
-theorem partPlain_flag (cfg : Cfg) (k : PartKind) (d : Nat) (l : List Item)
-    (hk : k = .byMetric ∨ ((k = .byNs ∨ k = .byGroup) ∧ d + 1 < nPart cfg)) :
-    ∀ p ∈ partPlain cfg k d l, FlagOrAbove cfg p := by
-  intro p hp
-  rcases hk with rfl | ⟨rfl | rfl, hd'⟩
-  · simp only [partPlain, List.mem_map] at hp
-    obtain ⟨r, hr, rfl⟩ := hp
-    exact Or.inl ⟨fun x hx => runs_key_const (·.metric) l r hr x hx, rfl⟩
-  · simp only [partPlain, List.mem_map] at hp
-    obtain ⟨r, hr, rfl⟩ := hp
-    exact Or.inr ⟨rfl, hd'⟩
-  · simp only [partPlain, List.mem_map] at hp
-    obtain ⟨r, hr, rfl⟩ := hp
-    exact Or.inr ⟨rfl, hd'⟩
-
-theorem kindAfterBudget_ok (cfg : Cfg) (h : kindAt cfg 0 = .byBudget) :
-    kindAfterBudget cfg = .byMetric ∨ ((kindAfterBudget cfg = .byNs ∨ kindAfterBudget cfg = .byGroup) ∧ 0 + 1 + 1 < nPart cfg) := by
-  rcases cfg with ⟨_, _, _, _, _, sb, sn, sg, _, _, _, _⟩
-  cases sb <;> cases sn <;> cases sg <;> simp [kindAt, nPart, partList, kindAfterBudget] at h ⊢
-
-theorem kindAt_budget_depth (cfg : Cfg) (d : Nat) (h : kindAt cfg d = .byBudget) : d = 0 := by
-  cases d with
-  | zero => rfl
-  | succ n => exact absurd h (kindAt_pos' cfg (n + 1) (by omega))
-where
-  kindAt_pos' (cfg : Cfg) (d : Nat) (hd : 1 ≤ d) : kindAt cfg d ≠ .byBudget := by
-    cases d with
-    | zero => omega
-    | succ n =>
-      rcases cfg with ⟨_, _, _, _, _, sb, sn, sg, _, _, _, _⟩
-      rcases n with _ | _ | _ | n <;> cases sb <;> cases sn <;> cases sg <;> simp [kindAt, partList]
-
-theorem kindAt_key_depth (cfg : Cfg) (d : Nat) (h : d < nPart cfg) : kindAt cfg d ≠ .byKey := by
-  rcases cfg with ⟨_, _, _, _, _, sb, sn, sg, _, _, _, _⟩
-  rcases d with _ | _ | _ | _ | d <;> cases sb <;> cases sn <;> cases sg <;>
-    simp [kindAt, nPart, partList] at h ⊢ <;> omega
-
-theorem partition_flag (cfg : Cfg) (g : Group) (hd' : g.depth < nPart cfg) : ∀ p ∈ partition cfg g, FlagOrAbove cfg p := by
-  intro p hp
-  unfold partition at hp
-  split at hp
-  · rename_i hk
-    have h0 := kindAt_budget_depth cfg _ hk
-    simp only [partBudget, List.mem_append, List.mem_map] at hp
-    rcases hp with ⟨r, hr, rfl⟩ | hp
-    · exact Or.inl ⟨fun x hx => runs_key_const (·.metric) _ r (List.takeWhile_subset _ hr) x hx, rfl⟩
-    · rw [h0] at hp hk
-      exact partPlain_flag cfg _ _ _ (kindAfterBudget_ok cfg hk) p hp
-  · rename_i k hk
-    refine partPlain_flag cfg _ _ _ ?_ p hp
-    cases hkk : kindAt cfg g.depth with
-    | byBudget => exact absurd hkk (by simpa using hk)
-    | byNs => exact Or.inr ⟨Or.inl rfl, kindAt_ns_grp_depth cfg _ (Or.inl hkk)⟩
-    | byGroup => exact Or.inr ⟨Or.inr rfl, kindAt_ns_grp_depth cfg _ (Or.inr hkk)⟩
-    | byMetric => exact Or.inl rfl
-    | byKey => exact absurd hkk (kindAt_key_depth cfg _ hd')
-
-
-theorem partition_depth_gt (cfg : Cfg) (g : Group) (hd' : g.depth < nPart cfg) : ∀ p ∈ partition cfg g, g.depth + 1 ≤ p.depth := by
-  intro p hp
-  have plain : ∀ k d l, ∀ p ∈ partPlain cfg k d l, d + 1 ≤ p.depth := by
-    intro k d l p hp
-    cases k <;> simp only [partPlain, List.mem_map, List.not_mem_nil] at hp
-    all_goals (obtain ⟨r, _, rfl⟩ := hp; simp [mkNs, mkGrp, mkMetric, mkKey])
-  unfold partition at hp
-  split at hp
-  · simp only [partBudget, List.mem_append, List.mem_map] at hp
-    rcases hp with ⟨r, _, rfl⟩ | hp
-    · simp only [mkFixed]; omega
-    · have := plain _ _ _ p hp; omega
-  · exact plain _ _ _ p hp
-
-theorem rounded_depth (cfg : Cfg) (g : Group) (ds : List Nat) : (rounded cfg g ds).1.depth = g.depth := by
-  unfold rounded
-  split
-  · rfl
-  · split <;> rfl
 
 /-- in agent mode every row of a NoSampleAgent metric below a group above the metric level is kept with factor 1,
     provided the recursion has enough fuel to reach the metric level -/
